@@ -283,6 +283,9 @@ class HTTP(BaseComponent):
             res.close = not parser.should_keep_alive()
 
         clen = int(req.headers.get('Content-Length', '0'))
+        if clen < 0:
+            del self._buffers[sock]
+            return self.fire(httperror(req, res, 400, description='Invalid Content-Length'))
         if (clen or req.headers.get('Transfer-Encoding') == 'chunked') and not parser.is_message_complete():
             return None
 
